@@ -95,7 +95,9 @@ def pairs_for(case, V, mk, only_impl=False):
     kin = {"x": V["x"], "Q2": V["Q2"], "y": V["y"]}
     # the probed point is not the first of the run: an earlier point of the same y bin (another x) has been evaluated before it, and the
     # results are requested twice -- the formula has to hold for every point of every request, not for the first evaluation only
-    kin_prev = {"x": V["x"] / 2, "Q2": V["Q2"], "y": V["y"]}
+    # variant prev_y0: the earlier point sits at y = 0 exactly, where the xF3 coefficient of every kind vanishes (what holds for it must not
+    # be remembered for the kind)
+    kin_prev = {"x": V["x"] / 2, "Q2": V["Q2"], "y": 0.0 if case.get("prev_y0") else V["y"]}
     xs.load([kin_prev, kin])
     res = xs.get_result()[1]
     res_again = xs.get_result()[1]
@@ -222,11 +224,13 @@ def run(chk, only=None):
     chk.assume("XSFPFCC normalisation oracle is G_F^2/(4 pi x (1+Q2/MW2)^2) in pb (standard derivation); docs/theory/intro.rst prints "
                "8 pi -- recorded as a doc/code tension, not alarmed on", "error tensors combine with the same linear coefficients")
     q = chk.tier == "quick"
-    for kind, flav, pid in itertools.product(XS_KINDS, ["total", "charm"], [11, -11, 12, -12]):
+    for kind, flav, pid, prev_y0 in itertools.product(XS_KINDS, ["total", "charm"], [11, -11, 12, -12], [True, False]):  # the y = 0 history first: it is then the first point of its kind in the process
         if q and flav == "charm" and pid in (-11, 12):
             continue
-        case = dict(kind=kind, flavor=flav, pid=pid)
-        cname = f"{kind}_{flav}/pid{pid}"
+        if prev_y0 and (flav != "total" or kind == "g5"):
+            continue
+        case = dict(kind=kind, flavor=flav, pid=pid, prev_y0=prev_y0)
+        cname = f"{kind}_{flav}/pid{pid}" + ("/earlier point at y=0" if prev_y0 else "")
         with Ctx(chk.seed) as ctx:
             names = {}
 
